@@ -76,6 +76,9 @@ type Run struct {
 	start        time.Time
 	Rand         *rand.Rand
 	vioCount     map[string]int
+	unknownVio   int
+	known        KnownSet
+	knownLoaded  bool
 	replayN      int
 	crumb        *os.File
 }
@@ -238,6 +241,12 @@ func (r *Run) Violate(tag string, attrs map[string]string, c interface{}, format
 		key += "|" + strings.Join(ks, ",")
 	}
 	r.vioCount[key]++
+	if !r.knownLoaded {
+		r.known, r.knownLoaded = LoadKnown(r.res.ID), true
+	}
+	if r.known.Match(&Violation{Tag: tag, Attrs: attrs}) == nil {
+		r.unknownVio++
+	}
 	cur, _ := r.res.Observed["violations_total"].(int64)
 	r.res.Observed["violations_total"] = cur + 1
 	if r.vioCount[key] > 25 || len(r.res.Violations) > 3000 {
@@ -257,6 +266,15 @@ func (r *Run) NumViolations() int {
 		n += c
 	}
 	return n
+}
+
+// Enough reports whether so many violations were recorded that running the
+// remaining cases would only add waiting time (a broken client makes every
+// later case run into its bounds): monitors stop their case loops then.
+func (r *Run) Enough() bool {
+	r.mu.Lock()
+	defer r.mu.Unlock()
+	return r.unknownVio >= 12 // witnesses of recorded known findings do not count
 }
 
 // Elapsed since the child started.
